@@ -36,11 +36,56 @@ func TestC12(t *testing.T) {
 			}
 		}
 	}
+	// impostor plugins (hand-made AutoMTLS plugin processes, cmd/vplugin/impostor.go): the host first runs an
+	// honest one (control, and the "sibling" whose key the impostor may hold), then a second client launches
+	// a plugin that announces one certificate and serves another / a sibling's / none
+	nIntr := len(cells)
+	sibCert, sibKey := genCert(t)
+	for _, proto := range []string{"netrpc", "grpc"} {
+		for _, mode := range []string{"legit", "other-cert", "sibling-cert", "plaintext"} {
+			cells = append(cells, Cell{
+				Name:   fmt.Sprintf("impostor %s second-plugin=%s", proto, mode),
+				Plugin: PluginConf{CookieKey: cookieKey, CookieValue: cookieVal, Legacy: 1, LegacyProto: proto, GRPCServer: true, TLS: "none", CertPEM: sibCert, KeyPEM: sibKey, Impostor: "legit"},
+				Host:   HostConf{Allowed: []string{"netrpc", "grpc"}, TLS: "auto", Launch: "cmd", Legacy: 1, SkipHostEnv: true},
+				Ops:    []string{"new", "start", "client", "dispense", "set:5", "get", "newimp:" + mode, "start", "client", "dispense", "set:6", "get", "ping", "kill:1", "kill:0"},
+			})
+		}
+	}
 	results := runCells(base, cells)
 	out := &enumResult{Exhaustive: true, Outcomes: map[string]int{}}
 	for i, r := range results {
 		c := cells[i]
 		auto := c.Host.TLS == "auto"
+		if i >= nIntr {
+			out.Evaluations++
+			out.Distinct++
+			mode := strings.TrimPrefix(c.Ops[6], "newimp:")
+			bad := func(f string, a ...any) {
+				out.Violations = append(out.Violations, enumViolation{Case: c.Name, Class: "S", Msg: fmt.Sprintf(f, a...) + " [" + c.Name + "]"})
+			}
+			if r.HelperErr != "" || r.Panic != "" {
+				bad("%s%s", r.HelperErr, r.Panic)
+				continue
+			}
+			answered := ""
+			for k, o := range r.Ops {
+				switch {
+				case k < 6 && o.Err != "":
+					bad("control: the honest hand-made AutoMTLS plugin does not work: %s failed: %s", o.Op, o.Err)
+				case k < 6 && o.Op == "get" && o.Val != "5":
+					bad("control: read %s from the honest plugin", o.Val)
+				case k > 6 && k < 13 && mode == "legit" && o.Err != "":
+					bad("control: a second honest plugin does not work: %s failed: %s", o.Op, o.Err)
+				case k > 7 && k < 13 && mode != "legit" && o.Err == "" && o.Op != "client" && !(o.Op == "dispense" && c.Plugin.LegacyProto == "grpc"): // a gRPC Dispense is local
+					answered += " " + o.Op
+				}
+			}
+			out.Outcomes[fmt.Sprintf("impostor=%s accepted=%v", mode, answered != "")]++
+			if answered != "" {
+				bad("the host accepted an impostor plugin (%s): answered%s", mode, answered)
+			}
+			continue
+		}
 		bad := func(f string, a ...any) {
 			out.Violations = append(out.Violations, enumViolation{Case: c.Name, Class: "S", Msg: fmt.Sprintf(f, a...) + " [" + c.Name + "]"})
 		}
